@@ -177,7 +177,7 @@ class Monitor:
         if s is not None and s.active:
             t = s.by_ident.get(_real_threading.get_ident())
             if t is not None:
-                s.point("line", None)
+                s.point("line", code)
 
     def _on_instr(self, code, offset):
         s = self.sched
@@ -212,6 +212,8 @@ class Sched:
         self.on_stable = None
         self.wall_cap = 120.0
         self.preempt_stacks = []
+        self.shallow_files = None     # file names whose line events are recorded as "API-level" steps
+        self.shallow_steps = []       # (tid, thread-local step) of such events
         self.ready = _real_threading.Semaphore(0)
 
     # ---- construction ----
@@ -280,6 +282,9 @@ class Sched:
         me = self.current
         self.step += 1
         me.steps += 1
+        if self.shallow_files is not None and kind == "line" and obj is not None \
+                and obj.co_filename in self.shallow_files:
+            self.shallow_steps.append((me.tid, me.steps))
         if self.on_step is not None:
             v = self.on_step(self, me, kind)
             if v:
